@@ -595,8 +595,11 @@ func runCaseA(c *core.Ctx, cs *caseA, allFacets []FacetSpec, layout int, forms [
 		}
 	}
 	evals := 0
-	for _, form := range forms {
+	for fi, form := range forms {
 		for vi := 0; vi < nvar; vi++ {
+			if fi > 0 && c.Quick() && (vi+rot)%3 != 0 {
+				continue // quick tier: the second query form runs a rotating third of the variants
+			}
 			v := variants[vi]
 			facets := lightFacets
 			if (vi+rot+form)%4 == 0 {
